@@ -8,6 +8,9 @@ use percent_encoding::{AsciiSet, CONTROLS, utf8_percent_encode};
 use serde::{Deserialize, Serialize};
 use serde_json::from_str as json_decode;
 use std::cmp::Ordering;
+#[cfg(kani)]
+use crate::verif_shim::map::HashMap;
+#[cfg(not(kani))]
 use std::collections::HashMap;
 
 const SIMPLE_ENCODE_SET: &AsciiSet = CONTROLS;
